@@ -675,10 +675,11 @@ def tasks(tier):
         pool = [B_A, B_B, B_E, G_ABA, G_EB, G_NONE, S_A, S_E]
         for scen in scenarios(pool, 3, max_second=2):
             out += variants(scen, CACHES_ALL)
-        pool4 = [B_A, B_B, B_E, G_ABA, G_EB, S_A]
+        pool4 = [B_A, B_B, B_E, G_ABA, S_A]
         for scen in scenarios(pool4, 4, max_second=2):
             if len(scen[0]) + len(scen[1]) == 4:
-                out += variants(scen, CACHES_MAIN, api_build=False)
+                # max_batch_size 1 (every request its own batch) is covered with <= 3 requests
+                out += [c for c in variants(scen, CACHES_MAIN, api_build=False) if c["mbs"] != 1 or len(scen[1])]
         # 5 requests: deviation bound iterated 0, 1, 2 ... until the task's share of the budget is used
         five = [("B", "a", 1), ("B", "b", 1), ("B", "a", 1), ("B", "", 1), ("B", "b", 1)]
         mixed = [("B", "a", 1), ("B", "b", 1), ("G", ("a", "b", "a"), 1), ("S", "a", 1), ("B", "", 1)]
@@ -688,7 +689,7 @@ def tasks(tier):
                 for mbs in (2, 3):
                     out.append({"reqs": reqs, "mbs": mbs, "cache": list(cache) if cache else None,
                                 "prewarm": list(prewarm), "use_batching": True, "build": "prebuilt",
-                                "dev_iter": True, "max_dev": 12, "big": True, "time_limit": 120})
+                                "dev_iter": True, "max_dev": 12, "big": True, "time_limit": 80})
         # loop-iteration granularity
         for m in multisets([B_A, B_B, B_E, G_ABA, G_EB, S_A], 2):
             for c in variants((m, ()), CACHES_MAIN, api_build=False):
@@ -699,7 +700,7 @@ def tasks(tier):
                     out.append({"reqs": [(kd, p, 1) for kd, p in m], "mbs": mbs,
                                 "cache": list(cache) if cache else None, "prewarm": list(prewarm),
                                 "use_batching": True, "build": "prebuilt", "granularity": "iteration",
-                                "max_choices": 600, "dev_iter": True, "max_dev": 40, "big": True, "time_limit": 90})
+                                "max_choices": 600, "dev_iter": True, "max_dev": 40, "big": True, "time_limit": 60})
     # two indexes with different embedding models and the same cache settings: requests of both, all orders
     pool2 = [B_A, G_ABA, S_A] if tier == "quick" else [B_A, B_E, G_ABA, G_EB, S_A]
     for x in pool2:
@@ -727,7 +728,7 @@ def weight(cfg):
     if any(r[2] == 2 for r in cfg["reqs"]):
         w /= 3
     if cfg.get("big"):
-        w *= 1000
+        w = 0       # the deviation-bounded configurations run last, each within its own time limit
     return w
 
 
@@ -754,7 +755,7 @@ def run(rep, tier):
 
 def _run(rep, tier, base, par):
     ts = tasks(tier)
-    budget = 50 if tier == "quick" else 17 * 60
+    budget = 50 if tier == "quick" else 18 * 60
     t0 = time.time()
     deadline = t0 + budget
     val_mod = 20 if tier == "quick" else 50
@@ -767,7 +768,7 @@ def _run(rep, tier, base, par):
         import random
 
         random.Random(rep.seed).shuffle(ts)      # order of work only
-        ts.sort(key=lambda c: 0 if c.get("big") else 1)
+        ts.sort(key=lambda c: 1 if c.get("big") else 0)
     else:
         ts.sort(key=lambda c: -weight(c))
     gc.collect()
@@ -829,7 +830,7 @@ def _run(rep, tier, base, par):
     if not exhaustive:
         parts = []
         if incomplete:
-            parts.append(f"{len(incomplete)} configuration(s) stopped by the {budget}s budget before all schedules were run")
+            parts.append(f"{len(incomplete)} configuration(s) stopped before all schedules were run (time budget {budget}s, or a non-terminating execution)")
         if dev_done:
             parts.append(f"{len(dev_done)} large configuration(s) enumerated up to a deviation bound only "
                          f"(smallest completed bound {min(bounded) if bounded else 'none'}; see deviation_bounded_configurations)")
